@@ -1,14 +1,19 @@
 # C12 — layer resolver: held layers stay usable, released layers are reclaimed
 PROPS["C12"] = dict(
     props_file="Properties/C12.v",
-    harnesses=[dict(cmd="resolver", mod="root", model="Model.Resolver", quick=200, thorough=12000, shard=24, coq_jobs=12,
+    harnesses=[dict(cmd="resolver", mod="root", model="Model.Resolver", quick=130, thorough=6000, shard=44, coq_jobs=12, race=120,
                     require=["op.start", "op.step", "op.step.fail", "op.done", "op.close", "op.release.again", "op.expl", "op.expb",
                              "op.use.held", "op.refresh", "op.wake", "pause.1", "pause.3", "pause.4", "result.blocked", "result.err",
-                             "result.ret.fresh", "result.ret.shared", "result.use.closed", "result.use.released-open"])],
+                             "result.ret.fresh", "result.ret.shared", "result.use.closed", "result.use.released-open"]),
+               dict(cmd="fsmount", mod="root", model="Model.FsMount", quick=70, thorough=3000, shard=35, coq_jobs=12, race=150,
+                    require=["op.mount", "op.check.mounted", "op.check.refresh", "op.unmount", "op.unmount.unknown", "op.use.mounted",
+                             "op.expl", "op.expb", "result.mount.ok", "result.mount.err", "result.check.err"])],
     rule="random interleavings of Resolve (suspended inside each external call: connectivity check, registry, metadata store; outcome "
          "chosen per call) / Done / Close / layer-TTL expiry / blob-TTL expiry / Check+RootNode+reads / Refresh over 3 layer names, each followed "
          "by a closing sequence (finish, release all, expire all, re-resolve, close); non-trivial = a shared and >= 2 fresh instances plus a failed "
-         "external call or extra layer expiry; distinct = distinct (executed history, observations)",
+         "external call or extra layer expiry; distinct = distinct (executed history, observations). Second harness: random histories of "
+         "fs.Mount (target + 2 pre-resolved neighbours, scripted failures of registry / metadata store / connectivity check per layer) / Check "
+         "(check ok?, refresh ok?) / Unmount / reads / expiry over 2 images x 3 layers and 4 mountpoints on the real fs.NewFilesystem without the FUSE server",
     assumptions=[
         "sync.Mutex / sync.Once / namedmutex behave as documented; every TTLCache method is atomic under the cache mutex and the layer cache's "
         "OnEvicted callback (layer.close, which takes the blob cache mutex) runs inside the layer-cache critical section, so a schedule is a list of sub-steps",
@@ -17,15 +22,22 @@ PROPS["C12"] = dict(
         "time.AfterFunc timers: the timer body is the ExpireL/ExpireB op, fired at arbitrary points by the hooks VerifExpireLayerC12/VerifExpireBlobC12",
         "os.MkdirTemp returns a fresh directory and os.RemoveAll removes it; directory creation does not fail (not injectable)",
         "external calls (fetcher.check, remote.Handler, metadata store) may fail at will: their outcome is an argument of the sub-step, universally quantified",
+        "fs.Mount: the FUSE server (after registration) and the 30 s wait for the target's Resolve are outside the model; prefetch and background fetch are "
+        "switched off; Mount over an already registered mountpoint (never done by the snapshotter) is not generated",
     ],
     level_text="Coq theorems over every interleaving (any list of sub-steps of any number of Resolve calls, Done, Close, expiry of either cache, Use, Refresh, "
                "with every external call failing or succeeding at will) of the resolver model built on the C10 refcounted-cache machine: "
-               "invariant by induction over fold_left step. The model is run against fs/layer.Resolver on random interleavings every run.",
+               "invariant by induction over fold_left step (ownership invariant + per-name lock discipline: mutual exclusion, Add only when nothing is cached). "
+               "The same at the fs.Mount/Check/Unmount level (every fs-level state is a reachable resolver state; a registered layer is an unreleased layerRef). "
+               "Both models are run against fs/layer.Resolver resp. fs.NewFilesystem on random histories every run.",
     level_note="Model (coq/Model/Resolver.v) is hand-written over Model/Refcache.v; real timers, FUSE serving after Unmount, prefetch/background fetch and "
                "Go-level data races are outside the model; reads are observed (RootNode, file read through the reader, blob ReadAt, Check) but their bytes are not modelled.",
     technique="Coq proof: ownership invariant (every cache handle, directory and open object has exactly one owner) preserved by every sub-step, on top of the "
               "C10 exactly-once theorem; correspondence by vm_compute on observed interleavings",
     trusted=["fs/layer.Resolver is modelled by hand in coq/Model/Resolver.v; tie = per-op events (pause point / blocked / returned instance identity + fresh / error / "
              "closed flags seen by a holder) and the counts of fscache dirs, httpcache dirs and open metadata readers after every op",
-             "harness schedules a Resolve only at its external calls (coarse steps); the theorems cover all finer interleavings of the cache critical sections"],
+             "harness schedules a Resolve only at its external calls (coarse steps); the theorems cover all finer interleavings of the cache critical sections",
+             "fs/fs.go Mount/Check/Unmount are modelled by hand in coq/Model/FsMount.v over the resolver model; tie = Mount/Check result, closed flags seen through the "
+             "mountpoint, number of registered mountpoints, directory and open-metadata counts after every op; the fs harness runs each Mount's Resolve calls to completion "
+             "(their interleavings are exercised by the resolver harness and covered by the theorems)"],
 )
